@@ -210,6 +210,8 @@ static void op_mr(char **w, int nw)
 #ifdef H_C10_WITH_DATA
 void op_data(char **w, int nw);           /* h_c10_data.c */
 void h_c10_data_reset(void);
+void op_image(char **w, int nw);          /* h_c10_img.c */
+void h_c10_img_reset(void);
 #endif
 
 sqfs_file_t *h_c10_memfile(void) { return (sqfs_file_t *)&g_file; }
@@ -238,6 +240,7 @@ int main(void)
 			for (int i = 0; i < NSLOT; ++i) { if (g_mr[i]) sqfs_drop(g_mr[i]); g_mr[i] = NULL; }
 #ifdef H_C10_WITH_DATA
 			h_c10_data_reset();
+			h_c10_img_reset();
 #endif
 			printf("ok %ld\n", n);
 		} else if (strcmp(w[0], "bad") == 0 && nw == 3) {
@@ -253,6 +256,23 @@ int main(void)
 #ifdef H_C10_WITH_DATA
 		} else if (strcmp(w[0], "dr") == 0) {
 			op_data(w, nw);
+		} else if (strcmp(w[0], "img") == 0) {
+			op_image(w, nw);
+		} else if (strcmp(w[0], "imgfile") == 0 && nw == 2) {
+			FILE *fp = fopen(w[1], "rb");
+			long n;
+			unsigned char *buf;
+			if (!fp) { puts("bad-op"); continue; }
+			fseek(fp, 0, SEEK_END); n = ftell(fp); fseek(fp, 0, SEEK_SET);
+			buf = malloc(n > 0 ? (size_t)n : 1);
+			if (!buf || fread(buf, 1, (size_t)n, fp) != (size_t)n) abort();
+			fclose(fp);
+			for (int i = 0; i < NSLOT; ++i) { if (g_mr[i]) sqfs_drop(g_mr[i]); g_mr[i] = NULL; }
+			h_c10_data_reset();
+			h_c10_img_reset();
+			free(g_file.data);
+			g_file.data = buf; g_file.size = (size_t)n; g_file.nbad = 0;
+			printf("ok %ld\n", n);
 #endif
 		} else puts("bad-op");
 		fflush(stdout);
